@@ -98,6 +98,10 @@ type Ctx struct {
 	// States collects distinct model-state fingerprints visited.
 	States map[uint64]struct{}
 	Tier   string
+	// Known holds the fingerprints listed in known_findings.json for this
+	// property: they are recorded but do not end the run, so that the other
+	// invariants keep being checked.
+	Known map[string]bool
 }
 
 // Fail records a violation (the first one per fingerprint).
@@ -112,7 +116,16 @@ func (c *Ctx) Fail(invariant, fingerprint, format string, a ...any) {
 	c.S.Logf("VIOLATION %s %s", invariant, fingerprint)
 }
 
-func (c *Ctx) Failed() bool { return len(c.Viols) > 0 }
+// Failed reports whether a violation that is not a listed known finding has
+// been recorded.
+func (c *Ctx) Failed() bool {
+	for _, v := range c.Viols {
+		if !c.Known[v.Fingerprint] {
+			return true
+		}
+	}
+	return false
+}
 
 func (c *Ctx) State(fp uint64) {
 	if c.States == nil {
@@ -163,6 +176,12 @@ type Result struct {
 
 // RunOne executes one case under one tape inside a fresh bubble.
 func RunOne(t *testing.T, scn *Scenario, cs *Case, tape *simrt.Tape, tier string, trace bool) (res Result) {
+	known := map[string]bool{}
+	for k := range KnownFPs {
+		if strings.HasPrefix(k, scn.ID+"|") {
+			known[k[len(scn.ID)+1:]] = true
+		}
+	}
 	defer func() {
 		if r := recover(); r != nil {
 			msg := fmt.Sprint(r)
@@ -182,7 +201,7 @@ func RunOne(t *testing.T, scn *Scenario, cs *Case, tape *simrt.Tape, tier string
 		if v := cs.Knob("maxsteps", 0); v > 0 {
 			s.MaxSteps = uint64(v)
 		}
-		ctx := &Ctx{S: s, Case: cs, Tier: tier}
+		ctx := &Ctx{S: s, Case: cs, Tier: tier, Known: known}
 		s.Run(func() { scn.Run(ctx) })
 		res.Viols = ctx.Viols
 		res.LogHash = s.Hash
@@ -240,8 +259,11 @@ type KnownFile struct {
 	Fixed []string       `json:"fixed"`
 }
 
+// KnownFPs is the process-wide known-findings table (property|fingerprint).
+var KnownFPs = map[string]KnownFinding{}
+
 func LoadKnown(path string) map[string]KnownFinding {
-	out := map[string]KnownFinding{}
+	out := KnownFPs
 	b, err := os.ReadFile(path)
 	if err != nil {
 		return out
@@ -283,6 +305,8 @@ type WorkerOut struct {
 	Samples     []map[string]any `json:"samples"`
 	WallS       float64          `json:"wall_s"`
 	Variants    map[string]int   `json:"variants"`
+	AllFPs      map[string]int   `json:"all_fps,omitempty"`
+	AllFPFirst  map[string]uint64 `json:"all_fp_first,omitempty"`
 }
 
 // Worker runs indices [from,to) and writes a WorkerOut.
@@ -290,6 +314,7 @@ func Worker(t *testing.T, scn *Scenario, seed, from, to uint64, tier, outPath, r
 	st := time.Now()
 	out := &WorkerOut{Property: scn.ID, Seed: seed, Faults: map[string]int{}, Probes: map[string]int{},
 		Aborted: map[string]int{}, KnownSeen: map[string]int{}, Variants: map[string]int{}}
+	collect := os.Getenv("VF_COLLECT") != ""
 	nt := map[uint64]struct{}{}
 	sfp := map[uint64]struct{}{}
 	states := map[uint64]struct{}{}
@@ -339,6 +364,16 @@ func Worker(t *testing.T, scn *Scenario, seed, from, to uint64, tier, outPath, r
 			key := scn.ID + "|" + v.Fingerprint
 			if _, ok := known[key]; ok {
 				out.KnownSeen[v.Fingerprint]++
+				continue
+			}
+			if collect {
+				if out.AllFPs == nil {
+					out.AllFPs, out.AllFPFirst = map[string]int{}, map[string]uint64{}
+				}
+				if _, ok := out.AllFPs[v.Fingerprint]; !ok {
+					out.AllFPFirst[v.Fingerprint] = run
+				}
+				out.AllFPs[v.Fingerprint]++
 				continue
 			}
 			out.Violations++
@@ -411,4 +446,24 @@ func HashRuns(t *testing.T, scn *Scenario, seed, from, to uint64, tier string) {
 		nv := len(res.Viols)
 		fmt.Printf("HASH %d %016x %016x %d %d %s\n", run, res.LogHash, res.SchedFP, res.Steps, nv, res.Aborted)
 	}
+}
+
+// TraceRun executes one run with tracing and prints its case, event log and violations.
+func TraceRun(t *testing.T, scn *Scenario, seed, run uint64, tier string) {
+	r := NewRand(seed, run)
+	cs := scn.Gen(r, tier)
+	cs.Scenario = scn.ID
+	res := RunOne(t, scn, cs, simrt.NewTape(seed, run), tier, true)
+	b, _ := json.Marshal(cs)
+	fmt.Println("CASE", string(b))
+	for _, l := range res.Ring {
+		fmt.Println(l)
+	}
+	for _, v := range res.Viols {
+		fmt.Printf("VIOL %s %s: %s\n", v.Invariant, v.Fingerprint, v.Msg)
+	}
+	for _, p := range res.Panics {
+		fmt.Println("PANIC", p)
+	}
+	fmt.Printf("steps=%d aborted=%q faults=%v probes=%v\n", res.Steps, res.Aborted, res.Faults, res.Probes)
 }
